@@ -310,6 +310,7 @@ struct FnEmitter {
     std::vector<std::string> nodes; // json text by id
     std::unordered_map<const ValueDecl *, int> varIds;
     std::unordered_map<const Stmt *, int> tryOf, catchOf; // innermost enclosing try body / catch handler
+    std::unordered_map<const Stmt *, int> tryOfHandler;   // catch handler -> id of its try statement
     int nextVar = 0;
     std::set<int> emitted;
 
@@ -359,6 +360,7 @@ struct FnEmitter {
             for (unsigned i = 0; i < T->getNumHandlers(); ++i) {
                 auto *H = T->getHandler(i);
                 int hid = id(H);
+                tryOfHandler[H] = tid;
                 scanTry(H->getHandlerBlock(), curTry, hid);
             }
             return;
@@ -639,8 +641,16 @@ struct FnEmitter {
         } else if (auto *CS = dyn_cast<CXXCatchStmt>(S)) {
             o += ",\"k\":\"catch\",\"ell\":" + std::string(CS->getExceptionDecl() ? "0" : "1");
             if (CS->getExceptionDecl()) o += ",\"ty\":" + jstr(C.tyStr(CS->getCaughtType()));
-        } else if (isa<CXXTryStmt>(S)) {
-            o += ",\"k\":\"try\"";
+            { auto th = tryOfHandler.find(CS); if (th != tryOfHandler.end()) o += ",\"try\":" + std::to_string(th->second); }
+        } else if (auto *TS = dyn_cast<CXXTryStmt>(S)) {
+            // the handlers of the try: [[node id, 1 if catch(...)], ...]
+            o += ",\"k\":\"try\",\"hs\":[";
+            for (unsigned i = 0; i < TS->getNumHandlers(); ++i) {
+                auto *H = TS->getHandler(i);
+                if (i) o += ",";
+                o += "[" + std::to_string(id(H)) + "," + (H->getExceptionDecl() ? "0" : "1") + "]";
+            }
+            o += "]";
         } else if (auto *GS = dyn_cast<GotoStmt>(S)) {
             o += ",\"k\":\"goto\",\"n\":" + jstr(GS->getLabel()->getNameAsString());
         } else {
